@@ -17,6 +17,10 @@
        token, never a clean end caused by a fault, never a crash.
      * C20_run_prefix / C20_stream_fault_prefix: a run (which stops at the first error) yields the
        complete fault-free token list, or a proper prefix of it followed by OErr E_Io.
+     * C20_run_lockstep / C20_stream_lockstep: with NO hypothesis on buffer size, input or fuel:
+       the run under faults equals the run of the same reader over the schedule with the Fail
+       events removed (token list, terminal event -- BufferFull included -- and position), or is
+       a proper prefix of that run's tokens followed by OErr E_Io.
      * C20_persistent_errors_call / C20_persistent_errors_run / C20_stream_fail_first: while the Read is failing, no call
        reports a clean end or Eof, a call that still returns a token did not touch the Read, and
        the run ends with the I/O error.
@@ -86,6 +90,31 @@ Print Assumptions C20_position_le_delivered_reader.
 Theorem C20_position_new : forall capv input sch,
   fill_inv (rbw (reader_new capv input sch)) (rrd (reader_new capv input sch)).
 Proof. exact fill_inv_new. Qed.
+
+(* ---------- the run against its fault-free twin: no side conditions ---------- *)
+(* readeq r1 r2: same window, same BOM state, same unread data and delivered count, and the
+   schedule of r2 is the schedule of r1 with the Fail events removed *)
+Theorem C20_run_lockstep : forall n fuel r1 r2, readeq r1 r2 ->
+  run_next n fuel r1 = run_next n fuel r2
+  \/ exists pre suf p,
+       run_next n fuel r1 = (map OTok pre ++ [OErr E_Io], p) /\
+       fst (run_next n fuel r2) = map OTok pre ++ suf /\ suf <> [].
+Proof. exact run_lockstep. Qed.
+Print Assumptions C20_run_lockstep.
+
+Theorem C20_stream_lockstep : forall capv sch input,
+  let twin := run_next (length input + 2) (default_fuel input sch) (reader_new capv input (clean sch)) in
+  run_stream capv sch input = twin
+  \/ exists pre suf p,
+       run_stream capv sch input = (map OTok pre ++ [OErr E_Io], p) /\
+       fst twin = map OTok pre ++ suf /\ suf <> [].
+Proof. exact stream_lockstep. Qed.
+Print Assumptions C20_stream_lockstep.
+
+Theorem C20_clean_no_fail : forall sch, no_fail (clean sch).
+Proof. exact clean_no_fail. Qed.
+Theorem C20_clean_id : forall sch, no_fail sch -> clean sch = sch.
+Proof. exact clean_id. Qed.
 
 (* ---------- a failing Read ---------- *)
 (* While the next event of the schedule is Fail (cap > 0 = a real buffer): a call returns a
@@ -221,3 +250,15 @@ Proof.
   split; [vm_compute; reflexivity|]. eexists. split; [vm_compute; reflexivity|].
   split; [vm_compute; reflexivity|]. split; [vm_compute; reflexivity|]. eexists. vm_compute. reflexivity.
 Qed.
+
+(* lockstep with a buffer that is too small ('{abc ' through 2 bytes): the fault-free twin ends
+   with BufferFull; a fault that is not reached changes nothing, a fault that is reached cuts
+   the run with E_Io *)
+Definition exs_input : bytes := [123; 97; 98; 99; 32]%N.
+Example C20_ex_lockstep_small_buffer :
+  run_stream 2 [Data 1; Data 1; Data 1; Fail] exs_input = ([OTok ROpen; OErr E_BufferFull], 1) /\
+  run_stream 2 [Data 1; Fail; Data 1; Data 1; Fail] exs_input = ([OTok ROpen; OErr E_Io], 1) /\
+  run_next 7 (default_fuel exs_input [Data 1; Fail; Data 1; Data 1; Fail])
+           (reader_new 2 exs_input (clean [Data 1; Fail; Data 1; Data 1; Fail]))
+    = ([OTok ROpen; OErr E_BufferFull], 1).
+Proof. repeat split; vm_compute; reflexivity. Qed.
